@@ -61,13 +61,19 @@ void harness_pathop(void) { U32 pl = nd8(), pp, r = 0, sp, lp; char want[PATH_MA
         V_WITNESS("performed"); }
     V_WITNESS("end"); }
 
-void harness_rename(void) { U32 pl1 = nd8(), pl2 = nd8(), p1, p2, r; char w1[PATH_MAX + 4], w2[PATH_MAX + 4]; int l1, l2; U32 k;
-    setup_dir(4); V_ASSUME(pl1 <= PATH_MAX + 1 && pl2 <= PATH_MAX + 1); p1 = gptr(pl1); p2 = gptr(pl2);
+/* old path relative to one directory descriptor, new path relative to ANOTHER one (fixed path "/q") */
+static int expect_join2(U32 pp, U32 pl, char* out) { U32 k, n = 0; if (pl == 0) return -1;
+    if (gdata[pp] == '/') { if (pl >= PATH_MAX) return -1; for (k = 0; k < PATH_MAX; k++) if (k < pl) out[n++] = (char)gdata[pp + k]; out[n] = 0; return (int)n; }
+    if (2 + 1 + pl + 1 > PATH_MAX) return -1; out[n++] = '/'; out[n++] = 'q'; out[n++] = '/';
+    for (k = 0; k < PATH_MAX; k++) if (k < pl) out[n++] = (char)gdata[pp + k]; out[n] = 0; return (int)n; }
+void harness_rename(void) { U32 pl1 = nd8(), pl2 = nd8(), p1, p2, r, pre2; char w1[PATH_MAX + 4], w2[PATH_MAX + 4]; int l1, l2; U32 k; bool ok;
+    setup_dir(4); ok = wasiFileDescriptorAdd(-1, "/q", &pre2); V_ASSUME(ok); nlog = 0;
+    V_ASSUME(pl1 <= PATH_MAX + 1 && pl2 <= PATH_MAX + 1); p1 = gptr(pl1); p2 = gptr(pl2);
     for (k = 0; k < PATH_MAX + 1; k++) { if (k < pl1) V_ASSUME(gdata[p1 + k] != 0); if (k < pl2) V_ASSUME(gdata[p2 + k] != 0); }
-    l1 = expect_join(p1, pl1, w1); l2 = expect_join(p2, pl2, w2);
-    r = wasi_snapshot_preview1__path_rename(0, pre, p1, pl1, pre, p2, pl2);
+    l1 = expect_join(p1, pl1, w1); l2 = expect_join2(p2, pl2, w2);
+    r = wasi_snapshot_preview1__path_rename(0, pre, p1, pl1, pre2, p2, pl2);
     if (nlog == 0) { V_ASSERT(r == 28 && (l1 < 0 || l2 < 0 || l1 >= PATH_MAX - 2 || l2 >= PATH_MAX - 2), "rename rejected only for an unacceptable path"); V_WITNESS("rejected"); }
-    else { V_ASSERT(nlog == 1 && LOG[0].fn == F_RENAME && l1 >= 0 && l2 >= 0, "exactly one rename on the host"); same_path(0, w1, l1, "rename source is the resolved old path"); same_path(1, w2, l2, "rename target is the resolved new path");
+    else { V_ASSERT(nlog == 1 && LOG[0].fn == F_RENAME && l1 >= 0 && l2 >= 0, "exactly one rename on the host"); same_path(0, w1, l1, "rename source is the old path resolved against the OLD directory descriptor"); same_path(1, w2, l2, "rename target is the new path resolved against the NEW directory descriptor");
         if (r != 0) V_ASSERT((int)r == spec_errno(errno), "error code is the WASI translation of errno"); V_WITNESS("performed"); }
     V_WITNESS("end"); }
 
